@@ -27,7 +27,7 @@ pub(crate) fn entity_created_on_server(
         commands
             .entity(id)
             .remove::<SyncMark>()
-            .insert(SyncEntity { uuid });
+            .try_insert(SyncEntity { uuid });
         debug!("New entity tracked on server {}", uuid);
     }
 }
